@@ -480,10 +480,13 @@ def run_certified(ctx, model_ok, emb_samples, nd_samples, rs_samples):
         s.a, s.b, s.psf_a, s.psf_b = a, b, pa, pb
         out = cluster.resize([s], ratio=r)
         if out:
-            goals.append(f'Goal Rabs (resize_a {rlit(a)} {rlit(pa)} {rlit(float(r))} - {rlit(out[0].a)}) <= {tol(out[0].a)}. '
+            # 1 - 1/ratio**2 cancels for ratios close to 1: its binary64 error (a few 1e-16 absolute) is amplified by psf^2 / (2 result)
+            def tolr(v, psf):
+                return rlit(max(max(abs(v), 1e-3) * 2.0 ** -36, psf * psf * 2e-15 / max(abs(v), 1e-300)))
+            goals.append(f'Goal Rabs (resize_a {rlit(a)} {rlit(pa)} {rlit(float(r))} - {rlit(out[0].a)}) <= {tolr(out[0].a, pa)}. '
                          f'Proof. {unf}. interval with (i_prec 90). Qed.')
             metas.append(('resize_a', (a, pa, r), out[0].a))
-            goals.append(f'Goal Rabs (resize_b {rlit(b)} {rlit(pb)} {rlit(float(r))} - {rlit(out[0].b)}) <= {tol(out[0].b)}. '
+            goals.append(f'Goal Rabs (resize_b {rlit(b)} {rlit(pb)} {rlit(float(r))} - {rlit(out[0].b)}) <= {tolr(out[0].b, pb)}. '
                          f'Proof. {unf}. interval with (i_prec 90). Qed.')
             metas.append(('resize_b', (b, pb, r), out[0].b))
     for cat, i, j in nd_samples:
